@@ -64,6 +64,13 @@ func genC07(t *rapid.T) *Case {
 			Kind:   rapid.SampledFrom([]string{"gosched", "sleep"}).Draw(t, "yield.kind"),
 		})
 	}
+	if rapid.IntRange(0, 3).Draw(t, "park_start") == 0 {
+		// hold some RPC's start between id allocation and its first send, so that a cancellation can fall in between
+		c.Yields = append(c.Yields, Yield{Point: "client.newStream.afterAlloc", Nth: rapid.IntRange(0, len(c.RPCs)-1).Draw(t, "park_start.nth"), Kind: "park"})
+		// the cancellation strikes at a drawn scheduler step (early: while starts are still in progress)
+		c.Events[0].After = rapid.IntRange(1, 20).Draw(t, "step_early")
+		c.Events[0].AtStep = true
+	}
 	c.Tape = genTape(t, 0, 300)
 	return c
 }
@@ -144,7 +151,9 @@ func monC07(c *Case, tr *Trace) []Violation {
 			add("operation_never_returned", o.Start, "%s %s#%d never returned", o.Actor, o.Kind, o.Idx)
 		}
 	}
-	if er.Fired < 0 {
+	if er.Fired < 0 || tr.Labels["advance_skipped"] > 0 {
+		// (virtual time could not advance while goroutines waited for a mutex held by a parked goroutine:
+		// the deadline never fired, so there is no cancellation to judge)
 		return vs
 	}
 	started := false
@@ -157,7 +166,14 @@ func monC07(c *Case, tr *Trace) []Violation {
 		return vs
 	}
 	// --- 1. local effect in the same step, without any frame
-	if c.Cfg.Cap == 0 {
+	// (not when the harness itself holds a goroutine at a park-type yield point: that is not the library waiting)
+	parkArmed := false
+	for _, y := range c.Yields {
+		if y.Kind == "park" {
+			parkArmed = true
+		}
+	}
+	if c.Cfg.Cap == 0 && !parkArmed {
 		for _, o := range tr.Ops {
 			if o.RPC != vi || o.Side != "caller" || o.Pending() {
 				continue
